@@ -221,6 +221,34 @@ def causalCheck (dep : Nat → Nat → Option (Nat × Nat)) (W : List Call) : Bo
 def depOfList (deps : List ((Nat × Nat) × (Nat × Nat))) (t k : Nat) : Option (Nat × Nat) :=
   (deps.find? (fun e => e.1 == (t, k))).map (·.2)
 
+/-! ### a credential as `PseudonymManager.add_credential / create_credential` stores it -/
+
+/-- `self.execute("INSERT OR IGNORE INTO <t> …"); self.commit(); return` -/
+def storeOps (t : Nat) : List Prim := [.exec t .orIgnore, .callCommit, .ret]
+
+/-- token key, predecessor token key (`none` = genesis), metadata key, attestation keys -/
+structure Cred where
+  tk : Nat
+  prev : Option Nat
+  mdk : Nat
+  aks : List Nat
+  deriving DecidableEq, Repr
+
+/-- the insert calls that storing `c` issues, tables in the (generated) order `order`: 0 token, 1 metadata,
+    2 attestations -/
+def credCalls (order : List Nat) (c : Cred) : List Call :=
+  order.flatMap fun t =>
+    if t = 0 then [⟨0, storeOps 0, c.tk, c.tk⟩]
+    else if t = 1 then [⟨0, storeOps 1, c.mdk, c.mdk⟩]
+    else if t = 2 then c.aks.map (fun a => ⟨0, storeOps 2, a, a⟩)
+    else []
+
+/-- every credential's predecessor token is genesis or the token of an earlier credential (what `create_credential`
+    with `after=` an existing credential, or a chain handed over oldest first, gives) -/
+def Linked : List Nat → List Cred → Prop
+  | _, [] => True
+  | known, c :: cs => (∀ p, c.prev = some p → p ∈ known) ∧ Linked (c.tk :: known) cs
+
 /-- shape every insert must have: one INSERT (never OR REPLACE), then `self.commit()`, then return -/
 def wfInsertPath (ops : List Prim) : Bool :=
   match ops with
